@@ -14,6 +14,12 @@ Every scenario thread is a real Python thread, but only the holder of the baton 
   8 disp    PDisp    read of ``_transport_kind`` that feeds ``CallContext(kind=...)`` (``_prepare_method_call`` on the
                      serve path, ``_app_unary`` on the HTTP path)
   0 done             the thread has no job left
+  9                  (never in the model) a job ran to its end without any access to the binding state
+
+A job is not entered before the thread is scheduled for its first operation: every job starts behind a gate
+(``L_BEGIN``), and the step that opens the gate also performs the job's first operation.  Code that runs before
+the first interposed access (e.g. a middleware that consults a cache of its own) therefore runs at the moment the
+request is scheduled, not at scenario start.
 
 ``SchedServer`` is the real ``RpcServer`` with the two slots ``_transport_kind`` / ``_transport_capabilities``
 shadowed by properties that store into the original slots, and ``_transport_lock`` replaced by ``SchedLock``.
@@ -38,7 +44,8 @@ from vgi_rpc.rpc import CallContext, PipeTransport, RpcServer, TransportKind
 
 WATCHDOG_S = 20.0
 
-L_DONE, L_PRE, L_ACQ, L_CMP, L_HOOK, L_CK, L_CC, L_REL, L_DISP, L_BLOCKED = 0, 1, 2, 3, 4, 5, 6, 7, 8, 10
+L_DONE, L_PRE, L_ACQ, L_CMP, L_HOOK, L_CK, L_CC, L_REL, L_DISP, L_EMPTY_JOB, L_BLOCKED = 0, 1, 2, 3, 4, 5, 6, 7, 8, 9, 10
+L_BEGIN = 100  # gate in front of every job; never reported (the job's first operation is)
 
 KIND_CODE = {None: 0, "pipe": 1, "http": 2, "unix": 3, "tcp": 4}
 # via codes of the model: 0 http request, serve() over 1 ShmPipeTransport 2 UnixTransport 3 TcpTransport 4 PipeTransport 5 other
@@ -133,13 +140,20 @@ class Sched:
             self.threads.append(th)
             th.start()
         for t in range(len(bodies)):
-            self._hand(t)  # pre-roll: run up to (not including) the first operation
+            self._hand(t)  # run up to the gate of the first job (or to the end when there is no job)
 
     def step(self, t: int) -> int:
         """Let thread t perform the operation it is parked at; returns the label (model's label_of)."""
         if t in self.done or t >= len(self.threads):
             return L_DONE
         label = self.parked[t]
+        if label == L_BEGIN:
+            self._hand(t)  # enter the job: run up to (not including) its first operation
+            if t in self.done:
+                return L_EMPTY_JOB
+            label = self.parked[t]
+            if label == L_BEGIN:
+                return L_EMPTY_JOB
         if label == L_ACQ and self.lock_holder is not None:
             return L_BLOCKED
         self._hand(t)
@@ -403,6 +417,7 @@ def run_scenario(
         def body() -> None:
             res = sched.job_results.setdefault(t, [])
             for via, n in jobs:
+                sched.point(L_BEGIN)
                 sched.local.via = via
                 sched.local.bind = None
                 sched.local.last_disp = None
